@@ -8,6 +8,10 @@ fn engines() -> Vec<(&'static [&'static str], Reg)> {
     vec![
         (scn_admin::PROPERTIES, scn_admin::registry as Reg),
         (scn_exchange::PROPERTIES, scn_exchange::registry as Reg),
+        (scn_glv::PROPERTIES, scn_glv::registry as Reg),
+        (scn_timelock::PROPERTIES, scn_timelock::registry as Reg),
+        (scn_treasury::PROPERTIES, scn_treasury::registry as Reg),
+        (scn_lp::PROPERTIES, scn_lp::registry as Reg),
     ]
 }
 
